@@ -42,11 +42,11 @@ pub fn structures(p: usize) -> Vec<Structure> {
     v
 }
 
-pub const N_SCALES: usize = 4;
+pub const N_SCALES: usize = 5;
 pub const N_MEANS: usize = 3;
 
 pub fn scale_name(sv: usize) -> &'static str {
-    ["unit", "graded 2^-7..2^10", "graded 1e-2..1e3", "alternating 1e3/1e-2"][sv]
+    ["unit", "graded 2^-7..2^10", "graded 1e-2..1e3", "alternating 1e3/1e-2", "alternating 2^37/2^-20"][sv]
 }
 
 pub fn mean_name(mv: usize) -> &'static str {
@@ -59,11 +59,20 @@ fn col_scale(sv: usize, j: usize, p: usize) -> f64 {
         0 => 1.0,
         1 => 2f64.powi((-7.0 + 17.0 * t).round() as i32),
         2 => 10f64.powf(-2.0 + 5.0 * t),
-        _ => {
+        3 => {
             if j % 2 == 0 {
                 1e3
             } else {
                 1e-2
+            }
+        }
+        // standard deviations further apart than 1/eps (exact powers of two): used with the
+        // correlation option only, whose statement is invariant under per-column scaling
+        _ => {
+            if j % 2 == 0 {
+                137438953472.0
+            } else {
+                0.00000095367431640625
             }
         }
     }
